@@ -6,7 +6,7 @@ SPEC = {
     'allowed_axioms': [],
     'streams': [{
         'name': 'requests', 'pkg': '.', 'test': 'TestVerifC19',
-        'files': [('.', 'harness/root/zz_verif_c19_test.go')],
+        'files': [('.', 'harness/root/zz_verif_meta_common_test.go'), ('.', 'harness/root/zz_verif_c19_test.go')],
         'model_module': 'Model.C19_Service', 'imports': [],
         'shard': 1500, 'timeout': 1500,
     }],
